@@ -384,11 +384,8 @@ fn c19_wt_paths_u8_n3() {
     let mut w = s;
     let t1 = Tree::<u8>::new(&mut w[..]);
     let t2 = Tree::<u8>::from(s.to_vec());
-    let t3: Tree<u8> = s.iter().copied().collect();
     assert!(t1 == t2);
-    assert!(t2 == t3);
-    let tc = t1.clone();
-    assert!(tc == t1);
+    // different sequence => different value
     let p: usize = kani::any();
     kani::assume(p < 2);
     let v: u8 = kani::any();
@@ -400,9 +397,27 @@ fn c19_wt_paths_u8_n3() {
     kani::cover!(p == 1, "difference in the middle");
     core::mem::forget(t1);
     core::mem::forget(t2);
+    core::mem::forget(t4);
+}
+
+// @h props=C19 tier=quick family=M mem=18 timeout=2400 stubs=Model,stable_partition->fixed_array_reference(c17) role=wt.paths2.u8
+// @bound length 3 (s[2] = 255): collect gives the same value as new, Clone is equal
+// @funcs from_iter, clone, eq
+#[kani::proof]
+#[kani::unwind(66)]
+#[kani::stub(crate::utils::stable_partition_of_2, part2_stub)]
+fn c19_wt_paths2_u8_n3() {
+    let s = any_seq!(u8, 3, 2);
+    let mut w = s;
+    let t1 = Tree::<u8>::new(&mut w[..]);
+    let t3: Tree<u8> = s.iter().copied().collect();
+    assert!(t1 == t3);
+    let tc = t1.clone();
+    assert!(tc == t1);
+    kani::cover!(s[0] != s[1], "distinct symbols");
+    core::mem::forget(t1);
     core::mem::forget(t3);
     core::mem::forget(tc);
-    core::mem::forget(t4);
 }
 
 // @h props=C19 tier=quick family=M mem=18 timeout=2400 stubs=ModelBRS,utils::stable_partition_of_2->fixed_array_reference(c17) role=wt.widths
